@@ -39,7 +39,7 @@ pub fn run_one(base: Instant, cfg: &PairCfg, wl: Wl, k: u32, mask: u64, fates: &
         });
         let hz = horizon(k);
         loop {
-            if p.w.steps % 4 == 0 && workload_done(&p) {
+            if workload_done(&p) {
                 break;
             }
             if p.w.steps >= 60_000 {
@@ -120,7 +120,11 @@ pub fn main(args: &Args) -> ! {
     let mut rep = Report::new("C02", args, "fault_enumeration");
     let thorough = args.tier == crate::report::Tier::Thorough;
     let k: u32 = if thorough { 13 } else { 9 };
-    let cfgs = cfg_list(thorough);
+    // idle-timeout configurations get a shorter loss prefix (K=3) so that the loss run stays
+    // well below the timeout; longer runs would time out legitimately
+    let all_cfgs = cfg_list(thorough);
+    let idle_cfgs: Vec<_> = all_cfgs.iter().filter(|c| c.client.idle_ms.is_some()).cloned().collect();
+    let cfgs: Vec<_> = all_cfgs.into_iter().filter(|c| c.client.idle_ms.is_none()).collect();
     let wls: Vec<Wl> = if thorough { vec![Wl::W1, Wl::W3, Wl::W6, Wl::W2] } else { vec![Wl::W1, Wl::W3, Wl::W6] };
     let dl = deadline(if thorough { 1500 } else { 45 });
     rep.rule = format!(
@@ -137,6 +141,27 @@ pub fn main(args: &Args) -> ! {
         }
     }
     let total = tasks.len();
+    // idle configurations: K=3
+    let mut idle_viol = vec![];
+    for c in &idle_cfgs {
+        for &wl in &wls {
+            for mask in 0..8u64 {
+                let o = run_one(base, c, wl, 3, mask, &Default::default());
+                rep.evaluations += 1;
+                rep.distinct.insert(o.trace);
+                for (sig, what) in o.viol {
+                    idle_viol.push((c.client.name.clone(), wl, mask, sig, what));
+                }
+            }
+        }
+    }
+    for (cn, wl, mask, sig, what) in idle_viol {
+        rep.violation(Violation {
+            signature: format!("{sig}:{cn}"),
+            what: format!("cfg={cn} wl={wl:?} dropmask={mask:#b}: {what}"),
+            replay: json!({"check":"c02","kind":"mask","cfg":cn,"wl":format!("{wl:?}"),"k":3,"mask":mask}),
+        });
+    }
     let (res, capped) = e3(tasks, dl, |&(ci, wl, mask)| run_one(base, &cfgs[ci], wl, k, mask, &Default::default()));
     if capped {
         rep.exhaustive = false;
@@ -165,7 +190,7 @@ pub fn main(args: &Args) -> ! {
     rep.part("drop_masks", json!({"K": k, "configs": cfgs.len(), "workloads": wls.len(), "planned": total, "executed": res.len(), "capped": capped, "max_virtual_time_s": maxv.as_secs_f64()}));
     rep.sample(json!({"cfg": cfgs[0].client.name, "wl":"W1", "dropmask":"0b101", "meaning":"datagrams #0 and #2 (emission order, both directions) dropped, everything else delivered after the link latency"}));
     // E2: dup/delay/drop deviations
-    let e2cfgs: Vec<usize> = if thorough { (0..cfgs.len()).collect() } else { vec![0, 4, 11, 13, 20] };
+    let e2cfgs: Vec<usize> = if thorough { (0..cfgs.len()).collect() } else { vec![0, 4, 11, 13, 20].into_iter().filter(|i| *i < cfgs.len()).collect() };
     let kdev = if thorough { 3 } else { 2 };
     let mut e2execs = 0u64;
     let mut e2capped = false;
